@@ -157,7 +157,7 @@ def generate(res, n_specs, per_spec, W=14):
 
 
 def correspondence(res):
-    n_specs = 70 if res.tier == "quick" else 500
+    n_specs = 70 if res.tier == "quick" else 280
     corr, prop, infos = generate(res, n_specs, 6)
     cc = common.run_case_codes("C04", "corr", HEADER, corr, "c04_corr", chunk=40, ctype=CT)
     pc = common.run_case_codes("C04", "prop", HEADER, prop, "c04_prop", chunk=60, ctype=PT)
@@ -280,7 +280,7 @@ def api_clause(res):
     from props import c02
     api_converter_probe(res)
     W = 14
-    n = 56 if res.tier == "quick" else 500
+    n = 56 if res.tier == "quick" else 224
     terms, infos = c02.parallel(res, api_worker, [(res.seed * 1000 + 700 + w, max(1, n // W)) for w in range(W)])
     idx = [i for i, t in enumerate(terms) if t is not None]
     codes = common.run_case_codes("C04", "api", API_HEADER, [terms[i] for i in idx], "c07_all_hold", chunk=80, ctype=API_T)
